@@ -28,6 +28,7 @@ Definition wr (buf : list (option N)) (i : N) (v : N) : res (list (option N)) :=
 (** sizeof(CC_PQueue) = 64 (2 size_t, float + padding, buffer pointer, 3 allocator pointers, cmp). *)
 Definition PQ_HEADER_BYTES : N := 64.
 
+Definition SIZE_MAX : N := W - 1.
 (** cc_pqueue_new_conf: [if (conf->exp_factor <= 1) ex = DEFAULT_EXPANSION_FACTOR]. *)
 Definition pq_factor (num den : N) : N * N :=
   if num <=? den then (DEFAULT_EXPANSION_FACTOR_num, DEFAULT_EXPANSION_FACTOR_den) else (num, den).
@@ -39,6 +40,7 @@ Definition pq_bad_capacity (capacity n d : N) : bool :=
 Definition pq_new (mem : tag) (capacity num den : N) (a : alloc_st) : res (stat * option pq * alloc_st) :=
   let '(n, d) := pq_factor num den in
   if pq_bad_capacity capacity n d then Ok (CC_ERR_INVALID_CAPACITY, None, a) else
+  if g_pq_new_bytes capacity SIZE_MAX then Ok (CC_ERR_INVALID_CAPACITY, None, a) else    (* capacity * sizeof(void* ) must fit *)
   match alloc mem PQ_HEADER_BYTES a with                       (* mem_calloc(1, sizeof(CC_PQueue)) *)
   | (None, a1) => Ok (CC_ERR_ALLOC, None, a1)
   | (Some h, a1) =>
@@ -78,6 +80,7 @@ Definition pq_expand (s : pq) (a : alloc_st) : res (stat * pq * alloc_st) :=
   let prod := pq_cap s * pq_num s / pq_den s in
   if W <=? prod then Fault OutOfBounds else
   let new_capacity := if g_pq_expand_overflow prod (pq_cap s) then CC_MAX_ELEMENTS else prod in
+  if g_pq_expand_bytes new_capacity SIZE_MAX then Ok (CC_ERR_ALLOC, s, a) else
   match alloc (pq_mem s) (wmul new_capacity 8) a with
   | (None, a1) => Ok (CC_ERR_ALLOC, s, a1)
   | (Some b, a1) =>
